@@ -132,11 +132,18 @@ class State(_train.Listener):
         ctx.count("batches_checked")
         ctx.count("evaluations")
         # recorded indices must be the true sample ids of the rows, in batch order
+        # (where the decoration keeps them is its own business: `_batchify.indices` is where today's code does; when that
+        # attribute is absent the record cannot be read, and the clause is decided through its effect below - the
+        # constraint terms land on the rows of the right samples or they do not)
         rec = getattr(model._batchify, "indices", None)
-        if rec is None or [int(x) for x in rec] != ids:
+        if rec is None:
+            ctx.count("recorded_indices_attribute_absent")
+        elif [int(x) for x in rec] != ids:
             ctx.violation("recorded-indices", "batch-indices-not-recorded", observed={"recorded": rec, "true_ids": ids},
                           expected="equal")
             return
+        else:
+            ctx.count("recorded_indices_checked")
         if not (np.all(np.isfinite(self.gem_grad)) and np.all(np.isfinite(y_pred)) and np.all(np.isfinite(received))):
             ctx.count("nonfinite_gradient_skipped")    # C17 / C02's business
             return
